@@ -214,12 +214,12 @@ const (
 	opVerifyJWSUn  = "verify-jws-untrusted"
 	opVerifyCOSEUn = "verify-cose-untrusted"
 	opList         = "list"
-	opProbeNonExec = "install-dir-nonexec" // replay-only probe: the candidate in the source directory lacks the executable bit
+	opProbeNonExec = "install-dir-nonexec" // the only candidate in the source directory lacks the executable bit (F-16b: its mode was changed before the name was refused)
 	opAll          = "all"
 )
 
 func operations(thorough bool) []string {
-	ops := []string{opGet, opUninstall, opInstFile, opInstFileOW, opInstDir, opInstDirOW, opAddPlugin, opVerifyJWS, opVerifyCOSE}
+	ops := []string{opGet, opUninstall, opInstFile, opInstFileOW, opInstDir, opInstDirOW, opProbeNonExec, opAddPlugin, opVerifyJWS, opVerifyCOSE}
 	if thorough {
 		ops = append(ops, opVerifyJWSUn, opVerifyCOSEUn)
 	}
@@ -1001,6 +1001,11 @@ func (w *world) runCase(ns nameSpec, depth int, pre, op string) string {
 			changedInside = true
 			continue
 		}
+		if fam == "install-dir-nonexec" && ch.kind == "modified" && ch.path == c.srcExe {
+			// documented behaviour for an acceptable name: the single non-executable candidate of the
+			// install source gets its user-executable bit set before the installation is tried
+			continue
+		}
 		if !seen[ch.kind] {
 			seen[ch.kind] = true
 			viol(ch.kind + "-outside-plugin-dir")
@@ -1021,6 +1026,10 @@ func (w *world) runCase(ns nameSpec, depth int, pre, op string) string {
 			ok = pre == preInstalled && res.err == nil && errors.Is(e, os.ErrNotExist) || pre == preAbsent && errors.Is(res.err, os.ErrNotExist)
 		case "install-file", "install-dir":
 			ok = res.err == nil && ranSource && statErr == nil && (ranPlugin == (pre == preInstalled))
+		case "install-dir-nonexec":
+			// the private non-executable copy has no behaviour file (no marker): with the plugin absent the
+			// installation succeeds and the plugin file exists; with it installed the equal version is refused
+			ok = pre == preAbsent && res.err == nil && statErr == nil || pre == preInstalled && res.err != nil && statErr == nil
 		case opAddPlugin:
 			ok = pre == preInstalled && res.err == nil || pre == preAbsent && errors.Is(res.err, os.ErrNotExist)
 		case "verify":
